@@ -489,9 +489,36 @@ def scan_is_read_only():
 LOG_METHODS = {"debug", "info", "warning", "error", "critical", "exception", "log"}
 
 
+def _is_literal_format(fmt) -> bool:
+    if isinstance(fmt, ast.Constant) and isinstance(fmt.value, str):
+        return True
+    if isinstance(fmt, ast.JoinedStr) and not any(isinstance(v, ast.FormattedValue) for v in fmt.values):
+        return True
+    if isinstance(fmt, ast.BinOp) and isinstance(fmt.op, ast.Add):      # "literal" + "literal"
+        return _is_literal_format(fmt.left) and _is_literal_format(fmt.right)
+    return False
+
+
+def munge_keeps_argumentless_messages() -> bool:
+    """ParserLogger.__munge starts with `if not args: return <log_format with the two range markers removed>`: a message that comes
+    without arguments is never split at `$`"""
+    tree = parse(os.path.join(front.REPO_ROOT, "pymarkdown/general/parser_logger.py"))
+    for q, fn in enclosing_functions(tree):
+        if q == "ParserLogger.__munge":
+            body = [s_ for s_ in fn.body if not (isinstance(s_, ast.Expr) and isinstance(s_.value, ast.Constant))]
+            first = body[0] if body else None
+            if isinstance(first, ast.If) and ast.unparse(first.test) == "not args" and first.body and isinstance(first.body[-1], ast.Return) \
+                    and not first.orelse and "split" not in ast.unparse(first) and "log_format" in ast.unparse(first.body[-1]):
+                return True
+    return False
+
+
 def pogger_nonliteral_sites():
+    """POGGER calls whose format could make the call fail: a format that is not a literal AND is followed by arguments (a `$` coming
+    from interpolated text would be counted as a substitution point); without the argument-less rule of __munge every non-literal format"""
     out = {}
     n = 0
+    guard = munge_keeps_argumentless_messages()
     for rel, full in py_files():
         tree = parse(full)
         for q, fn in list(enclosing_functions(tree)):
@@ -500,9 +527,7 @@ def pogger_nonliteral_sites():
                         and isinstance(node.func.value, ast.Name) and node.func.value.id == "POGGER":
                     n += 1
                     fmt = node.args[0] if node.args else None
-                    ok = isinstance(fmt, ast.Constant) and isinstance(fmt.value, str)
-                    if not ok and isinstance(fmt, ast.JoinedStr) and not any(isinstance(v, ast.FormattedValue) for v in fmt.values):
-                        ok = True
+                    ok = _is_literal_format(fmt) or (guard and len(node.args) == 1 and not node.keywords)
                     if not ok:
                         out.setdefault((rel, q), []).append(node.lineno)
     return out, n
@@ -510,15 +535,18 @@ def pogger_nonliteral_sites():
 
 @check("C16", "C15")
 def logging_format_strings_are_literals():
-    """every POGGER.<level>(fmt, ...) call has a string LITERAL as its format: ParserLogger substitutes `$` placeholders in the format,
-    so document text interpolated into the format (f-string, +, %) makes the call raise when the level is enabled and the text
-    contains `$` - the log level would then change the outcome of the run.  (This also backs the extraction rule that drops
-    logging calls: a literal format cannot fail.)  One obligation per function that logs."""
+    """a ParserLogger call cannot fail because of the document: ParserLogger substitutes `$` placeholders in the format, so either the
+    format is a string LITERAL (or literals joined by +), or the call passes NO arguments and ParserLogger.__munge logs such a
+    message verbatim (obligation [munge]); document text interpolated into a format that is followed by arguments would make the call
+    raise when the level is enabled and the text contains `$` - the log level would then change the outcome of the run.  (This also
+    backs the extraction rule that drops logging calls.)  One obligation per function with an offending call."""
     sites, n = pogger_nonliteral_sites()
-    out = [{"name": "structural::C16::pogger_literal_formats[total]", "ok": n > 0, "info": logging_format_strings_are_literals.__doc__, "detail": f"{n} POGGER calls inspected"}]
+    out = [{"name": "structural::C16::pogger_literal_formats[total]", "ok": n > 0, "info": logging_format_strings_are_literals.__doc__, "detail": f"{n} POGGER calls inspected"},
+           {"name": "structural::C16::pogger_literal_formats[munge]", "ok": munge_keeps_argumentless_messages(),
+            "info": "ParserLogger.__munge returns an argument-less message verbatim before splitting at `$`", "detail": "pymarkdown/general/parser_logger.py"}]
     for (rel, q), lines in sorted(sites.items()):
         out.append({"name": f"structural::C16::pogger_literal_formats[{rel}::{q}]", "ok": False, "info": logging_format_strings_are_literals.__doc__,
-                    "detail": f"non-literal format at lines {lines}", "path": [f"{rel}::{q}"]})
+                    "detail": f"non-literal format followed by arguments at lines {lines}", "path": [f"{rel}::{q}"]})
     return out
 
 
